@@ -34,7 +34,8 @@ const PAYLOAD_BYTE: u8 = 0xAB;
 #[derive(Clone, PartialEq, Eq, Debug)]
 enum Node {
     Dir,
-    File(Vec<u8>),
+    /// (length, mtime in ns): a create / truncate / write changes at least one of them
+    File(u64, i128),
     Other,
 }
 
@@ -45,7 +46,8 @@ fn node_of(p: &Path) -> Option<Node> {
     if md.file_type().is_dir() {
         Some(Node::Dir)
     } else if md.file_type().is_file() {
-        Some(Node::File(std::fs::read(p).unwrap_or_default()))
+        use std::os::unix::fs::MetadataExt;
+        Some(Node::File(md.len(), md.mtime() as i128 * 1_000_000_000 + md.mtime_nsec() as i128))
     } else {
         Some(Node::Other)
     }
@@ -77,10 +79,10 @@ fn diff(a: &Snap, b: &Snap) -> Vec<(&'static str, Vec<u8>)> {
     for (p, n) in b {
         match (a.get(p), n) {
             (None, Node::Dir) => out.push(("+d", p.clone())),
-            (None, Node::File(_)) => out.push(("+f", p.clone())),
+            (None, Node::File(..)) => out.push(("+f", p.clone())),
             (None, Node::Other) => out.push(("?x", p.clone())),
             (Some(o), n) if o != n => match (o, n) {
-                (Node::File(_), Node::File(_)) => out.push(("~f", p.clone())),
+                (Node::File(..), Node::File(..)) => out.push(("~f", p.clone())),
                 _ => out.push(("?x", p.clone())),
             },
             _ => {}
@@ -327,9 +329,33 @@ fn is_data_pkt(p: &[u8]) -> bool {
 // ------------------------------------------------------------------------------------------------------
 // inside the jail (worker process)
 
+thread_local! {
+    /// the sandbox of the previous operation when that operation left the whole jail untouched
+    static PRISTINE: RefCell<Option<PathBuf>> = RefCell::new(None);
+}
+
+fn wipe_jail() {
+    if let Ok(rd) = std::fs::read_dir("/") {
+        for e in rd.flatten() {
+            let p = e.path();
+            if std::fs::symlink_metadata(&p).map(|m| m.is_dir()).unwrap_or(false) {
+                std::fs::remove_dir_all(&p).ok();
+            } else {
+                std::fs::remove_file(&p).ok();
+            }
+        }
+    }
+}
+
 fn run_one(mode: &str, root_s: &str, form: &str, loc: &str, outcome: &str, o: &mut Oracle) -> String {
     let root = PathBuf::from(root_s);
-    make_sandbox(&root);
+    // a fresh sandbox: either built from scratch in an emptied jail, or - when the previous operation provably
+    // changed nothing (its before/after snapshots of the whole jail were equal) - that sandbox renamed
+    let reused = PRISTINE.with(|p| p.borrow_mut().take()).map(|prev| prev == root || std::fs::rename(&prev, &root).is_ok());
+    if reused != Some(true) {
+        wipe_jail();
+        make_sandbox(&root);
+    }
     let (cwd, dest): (Option<PathBuf>, PathBuf) = match form {
         "abs" => (None, root.join("dest")),
         "slash" => (None, PathBuf::from(format!("{}/dest/", root_s))),
@@ -346,18 +372,9 @@ fn run_one(mode: &str, root_s: &str, form: &str, loc: &str, outcome: &str, o: &m
     let res = drive(mode, &dest, loc, outcome, &st);
     let after = snap_all();
     std::env::set_current_dir("/").ok();
-    // fresh world for the next operation: empty the jail
-    if let Ok(rd) = std::fs::read_dir("/") {
-        for e in rd.flatten() {
-            let p = e.path();
-            if std::fs::symlink_metadata(&p).map(|m| m.is_dir()).unwrap_or(false) {
-                std::fs::remove_dir_all(&p).ok();
-            } else {
-                std::fs::remove_file(&p).ok();
-            }
-        }
-    }
     let st = st.borrow();
+    let untouched = before == after && st.after_open.as_ref().map(|s| *s == before).unwrap_or(true);
+    PRISTINE.with(|p| *p.borrow_mut() = if untouched { Some(root.clone()) } else { None });
     let rootb = root_s.as_bytes();
     let d_end = diff(&before, &after);
     let d_open = st.after_open.as_ref().map(|s| diff(&before, s)).unwrap_or_default();
@@ -500,6 +517,7 @@ fn exec_in_jail(op: &str) -> (String, Vec<(String, String)>) {
         Ok(x) => x,
         Err(at) => {
             std::env::set_current_dir("/").ok();
+            PRISTINE.with(|p| *p.borrow_mut() = None);
             (
                 "PANIC".to_string(),
                 vec![("writer-panic".to_string(), format!("panic at {} for location {:?}", at, loc))],
@@ -727,7 +745,7 @@ pub fn run(ctx: &mut Ctx, _eng: &mut dyn Engine) {
     let workers = std::thread::available_parallelism().map(|n| n.get()).unwrap_or(4).min(16);
     ctx.rule = format!(
         "every Content-Location = prefix (9 kinds of the property text) + up to {} segments from the 8 kinds, enumerated exhaustively, x \
-         {{complete, error, interrupted}}, dest spelled abs|slash|dots in rotation; structured escape attempts (prefix x lead x 0..5 climbs of 4 spellings x 8 targets); {} seeded random strings over a larger token set; \
+         {{complete, error, interrupted}} (depth 5: one of the three per location, in rotation), dest spelled abs|slash|dots in rotation; structured escape attempts (prefix x lead x 0..5 climbs of 4 spellings x 8 targets); {} seeded random strings over a larger token set; \
          a relative-dest phase (chdir, single thread); {} full Sender->Receiver sessions; each against the real ObjectWriterFSBuilder in a \
          fresh sandbox, tree snapshot before / after open / at the end vs the Lean model's predicted effects; oracle = every effect strictly \
          below dest/; non-trivial = the op had a filesystem effect or the location has a non-Normal component after the strip \
@@ -745,7 +763,9 @@ pub fn run(ctx: &mut Ctx, _eng: &mut dyn Engine) {
         for d in 0..=depth {
             let total = 8usize.pow(d as u32);
             for code in 0..total {
-                for oc in outcomes.iter() {
+                // all three outcomes up to depth 4; at depth 5 (thorough) one outcome per location, in rotation
+                let ocs: &[&str] = if d <= 4 { &outcomes[..] } else { &outcomes[code % 3..code % 3 + 1] };
+                for oc in ocs.iter() {
                     let root = root_for(idx);
                     let kinds = grammar_segments(&root);
                     let mut c = code;
